@@ -3,16 +3,19 @@ import os, shutil, posixpath
 import core, gen, gen_units as G, canon, e2e
 from core import hx, unhx
 
-LEAN_MODULE = 'QM.Props.C12'
+LEAN_MODULE = 'QM.Props.C12Run'
 THEOREMS = ['Inst.C12_dirlink_parts', 'Inst.C12_dirlink_inside', 'Inst.C12_alias_inside', 'Inst.C12_alias_string', 'Inst.C12_resolves', 'Inst.C12_target_parts',
             'Inst.C12_template_without_default', 'Inst.C12_slash_names_ignored', 'Inst.C12_no_default_instance_with_slash',
             'Inst.C12_blocked_link_no_effect', 'Inst.C12_failed_link_does_not_stop_the_rest', 'Inst.C12_links_stay', 'Inst.C12_links_stay_all', 'Inst.C12_made_subset_plan',
-            'Inst.C12_top_level_never_blocked']
+            'Inst.C12_top_level_never_blocked', 'Inst.C12_plan_inside', 'Cv.C12_run_links_inside', 'Cv.C12_run_links_are_plans', 'Cv.C12_dry_run_no_links']
 ASSUMPTIONS = [
+    'Cv.process (QM/Run.lean) is the model of the whole run; its effects on the output directory are compared with real dry and normal runs on generated trees (written files, links with their targets, errors, exit status)',
     'Inst.linkPaths / Inst.target model enable_service_file (main.rs); tied to the code by running the real function through the hook on a scratch output directory and comparing the links it created (path and target) with the model\'s plan',
     'containment is lexical over an output directory that holds no symlinks leading elsewhere; the file-system effects themselves (create_dir_all, remove_file, symlink) are runtime behaviour and are checked on real runs with a full before/after snapshot of a sandbox that contains the output directory and decoy files beside it',
 ]
-LEVEL_TEXT = ('Proof (link planning) + end-to-end check (effects): Lean theorems over the model of enable_service_file — a WantedBy/RequiredBy link has '
+LEVEL_TEXT = ('Proof (link planning, whole plan, whole run) + end-to-end check (effects): C12_plan_inside — whatever [Install] holds, every link path planned for a service '
+              '(each Alias, WantedBy, RequiredBy) is relative and has no ".." part; C12_run_links_inside — so is every link made by a run of the model of process(), '
+              'for every tree, mode and answer of the file system, and a dry run makes none (C12_dry_run_no_links). In detail, over the model of enable_service_file — a WantedBy/RequiredBy link has '
               'exactly the two parts <unit>.wants|.requires / <service> and no ".." part; an Alias accepted by the test on the cleaned *string* is relative and every part of it, as the kernel resolves the path, is a plain '
               'name — no "..", "." or empty part (C12_alias_string: components → clean stack → rendering → parts, for every string); names with a '
               'path separator contribute nothing; a template without (usable) DefaultInstance gets no WantedBy/RequiredBy links; the relative target '
@@ -31,6 +34,11 @@ WORDS = ['default.target', 'multi-user.target', 'a.service', 'x y.target', '../u
 SVC_FILES = ['a.service', 'web-1.service', 'tpl@.service', 'tpl@inst.service', 'x.y.service', 'my svc.service', 'a-pod.service', '@.service', 'é.service',
              'tpl@.service', 't.p@.service', 'tpl@a@b.service', 'tpl@v1.2.service', 'a.b@.service']
 DEFINST = [None, 'i1', 'inst x', '../../../../esc', 'a/b', '', '%i', 'v1.2', 'a.b.c', '.hid', 'x.service', 'dot.', 'a@b', '@', 'é']
+
+
+def correspond_run(ctx):
+    import runcorr
+    runcorr.correspond_process(ctx, 240 if ctx.thorough else 60)
 
 
 def gen_install(rnd, svc):
@@ -114,6 +122,7 @@ def correspond(ctx):
     shutil.rmtree(base, ignore_errors=True)
     res.samples.append(dict(kind='correspondence-op', service=cases[0][0], install=cases[0][1]))
     ctx.log(f'correspondence (enable vs plan_links): {len(cases)} cases, {len(res.corr_disagreements)} disagreements')
+    correspond_run(ctx)
 
 
 def blocked(out, rel):
